@@ -324,14 +324,15 @@ class TokenCategoryHierarchyMapper:
         Returns:
             bool: True if `child` is a descendant of `parent`, False otherwise.
         """
-        # Base case: the parent is empty.
-        if len(tree.keys()) == 0:
+        # Base case: the parent is not in the tree or it is a leaf.
+        subtree = cls._find_subtree(tree, parent)
+        if not subtree:
             return False
 
         # Recursive case: explore the direct children of the parent.
         return any(
-            direct_child == child or cls._is_child(direct_child, child, tree=tree[parent])
-            for direct_child in tree.get(parent, {})
+            direct_child == child or cls._is_child(direct_child, child, tree=subtree)
+            for direct_child in subtree
         )
         # Vectorized version of the following code:
         #direct_children = tree.get(parent, dict())
@@ -366,7 +367,8 @@ class TokenCategoryHierarchyMapper:
         Returns:
             Set[TokenCategory]: The list of children categories of the parent category.
         """
-        return set(cls.hierarchy.get(parent, {}).keys())
+        subtree = cls._find_subtree(cls.hierarchy, parent)
+        return set(subtree.keys()) if subtree is not None else set()
 
     @classmethod
     def _nodes(cls, tree: _hierarchy_typing) -> Set[TokenCategory]:
